@@ -33,3 +33,12 @@ def stream(variant):
     if variant == "noasm":
         return ["", NONE]
     return [""]
+
+
+def hashes(variant):
+    """BLAKE2b avx2/sse41/ssse3/ref, Poly1305 sse2/donna64 (native), donna32 (noti), portable (generic)"""
+    if variant == "native":
+        return ["", CHAIN[2], CHAIN[4], NONE]
+    if variant == "noti":
+        return ["", NONE]
+    return [""]
